@@ -31,6 +31,28 @@ ASSUMPTIONS = [
     "caching an auxiliary attribute on a signal argument (get_max_stockwell_freq stores asig.swtf) is not a mutation of its data; "
     "values, dt, npts of signal arguments are compared",
     "transform_w_scipy_fft is called with real input only (it overwrites complex input: outside 'real records')",
+    "registry = the public functions of eqsig/sdof.py, displacements.py, im.py, fns/*.py, stockwell.py, surface.py, multiple.py (+ loader.save_*) "
+    "that take an array or a signal; not called: underscore-private helpers (a private helper may legitimately work in place on a "
+    "temporary of its public caller), the plot_* functions (need a matplotlib axis), functions of scalars only (gen_ricker_wavelet_asig, "
+    "generate_gaussian, time_the_generation_of_response_spectra), the file readers of loader.py",
+    "option crosses: every optional argument is either left out or given one (for a few, two) non-default value(s); the surface functions' "
+    "up_red / down_red are varied together (two scalars or two arrays of one value per travel time - the library accepts no mixture); "
+    "get_section_average / time_indices are crossed separately for index=False (times) and index=True (sample numbers); in the small-record "
+    "clause the all-default and the all-non-default member of every cross product run in every case, the other members in one case out of four",
+    "a result must share no memory with an argument (otherwise the caller's later in-place edit of the result - which the check performs "
+    "before calling again - would corrupt the input).  One documented pass-through is exempt: surface.trim_to_length(trim=False, start=False) "
+    "returns its `values` argument itself ('no changes required' in the source); for it only 'arguments unchanged' and 'same result' are asserted",
+    "forms that raise on the pinned tree for every input are still called (inputs must stay unchanged) but are not counted as unexpected "
+    "rejections: np.trapz is gone from NumPy 2.x (calc_acc_rms, calc_vsi_temporal, calc_fourier_moment, get_bandwidth_boore_2003), calc_a_rms "
+    "was removed by the authors (always raises), calc_sir unpacks the scalar that calc_significant_duration returns",
+    "mid-range lengths are bounded per call form by a cost category (CAPS: the longest record for which one call stays below ~0.3 s quick / "
+    "~1.5 s thorough): 300 000 / 1 500 000 samples for the vectorised functions, 120 000 / 600 000 for FFT / filter / python-min-max functions, "
+    "40 000 / 200 000 for the loops over peaks and the (n/2 x 50) smoothing matrix, 6 000 / 60 000 for the per-sample python loop of the sdof "
+    "response (2 400 / 20 000 with the 100-241 default periods), 4 000 / 20 000 for get_major_change_indices and the tol>0 zero crossings "
+    "(quadratic), ~2 000 / 4 000 for the functions with n x n temporaries (step-function error, Stockwell, default-frequency smoothing, "
+    "Duhamel integral); beyond these lengths those functions are not exercised.  Python lists longer than 60 000 (thorough 240 000) elements "
+    "are not generated (list conversion dominates); a 2-d time-frequency table argument is a random complex table of <= 600 x 1 600",
+    "mid-range records are noise x envelope, sines + noise or a random walk + noise with a non-zero mean (int64 variant: round(8 a))",
 ]
 
 
@@ -1029,9 +1051,9 @@ def _top(cap, *tag):
 
 
 def _mid_plan(f, tier):
-    """[(n, how), ...] for one call form.  Quick: every form gets at least two mid-range lengths at every seed (float64 + one of
-    int64 / list each); the long records (top tenth of the form's affordable range and a rung of its upper half) go to the primary
-    forms and to a hash-chosen third of the others.  Thorough: every form, every rung, every container."""
+    """[(n, how), ...] for one call form.  Quick: every form gets at least two mid-range lengths at every seed (float64 and one of
+    int64 / list); the long records (top tenth of the form's affordable range) go to the primary forms and to a hash-chosen third of
+    the others.  Thorough: every form, every rung, every container."""
     s = gen.run_seed()
     cap = CAPS[f.cap][0 if tier == "quick" else 1]
     lo = LADDER_LO.get(f.cap, 2000)
@@ -1093,11 +1115,13 @@ def _mid_check(case, ctx):
 
 core.enum_clause(CLAUSES, "mid-range", _mid_enum, quick_shards=8,
                  rule="every call form of the registry (the whole cross product of every function's optional arguments) on records of laddered "
-                      "lengths: the form's affordable range [2 000 (900 for the quadratic functions), cap] with cap by cost category from 2 300 "
-                      "(n x n temporaries) over 16 000 (python loop per sample) to 300 000 samples (vectorised) in the quick tier, 3 600 .. "
-                      "1 500 000 in the thorough tier; quick: per form >= 2 lengths (+ lengths aimed at integer literals of the source), "
-                      "float64 and one of int64 / list each, the top tenth of the range for primary forms and a hash-chosen third of the "
-                      "others; thorough: 12 rungs + top + mined x 3 containers for every form; non-trivial = the form was evaluated (not rejected)",
+                      "lengths: the form's affordable range [2 000 (700-1 200 for the quadratic functions), cap] with cap by cost category (CAPS) from "
+                      "~2 000 (n x n temporaries) over 6 000 (python loop per sample) to 300 000 samples (vectorised) in the quick tier, 4 000 .. "
+                      "1 500 000 in the thorough tier; quick: per form >= 2 lengths at every seed - primary forms (all options default / all "
+                      "non-default, object methods, 0-d dt): the top tenth of the range (float64), a rung of the upper half and one of the lower "
+                      "half (int64 / list) + a length aimed at an integer literal of the source; the other members of a cross product: two rungs "
+                      "(float64, int64 / list), the top tenth for a hash-chosen third of them; thorough: 12 rungs + top + mined x 3 containers for "
+                      "every form; non-trivial = the form was evaluated (not rejected)",
                  oracle="as pure-functions: arguments bit-for-bit unchanged (snapshot dtype, shape, bytes / list deep copy), no result array shares "
                         "memory with an argument, second call (after the caller scribbled over the first result) returns the same result",
                  exhaustive_note="all call forms x planned (length, container) pairs at this seed",
